@@ -80,6 +80,8 @@ def check(hyps: list, goal, timeout_ms: int, use_lemmas: bool = True, seed: int 
         s.add(a)
     for a in TOpaque.distinct_axioms():
         s.add(a)
+    for a in spec.opaque_axioms():
+        s.add(a)
     for h in hyps:
         s.add(h)
     s.add(z3.Not(goal))
@@ -130,9 +132,16 @@ def read_model(model: z3.ModelRef, params: dict[str, Val]) -> dict:
 def discharge(ob: Obligation, timeout_ms: int = 30000, try_cvc5: bool = True) -> list[Result]:
     results = []
     for idx, (h, g) in enumerate(split_goal(ob.hyps, ob.goal)):
-        r, s, dt = check(h, g, timeout_ms)
+        # first without the lemma library (its multi-pattern lemmas about cnt/prod cost instantiations that most goals
+        # do not need and that make some of them unstable), then with it
+        r, s, dt = check(h, g, min(timeout_ms, 500), use_lemmas=False)
         if r == z3.unsat:
             results.append(Result(ob, "proved", "z3", dt, sub=idx))
+            continue
+        r, s, dt1 = check(h, g, timeout_ms)
+        dt += dt1
+        if r == z3.unsat:
+            results.append(Result(ob, "proved", "z3+lemmas", dt, sub=idx))
             continue
         gt = g.sexpr()  # (the python pretty-printer is very slow on large terms)
         gt = gt if len(gt) < 600 else gt[:600] + "..."
